@@ -15,21 +15,23 @@ PROP = "C01"
 MANIFEST = {
     "text": "Lean 4 theorems for every axis length and element type: roll_one_dim has the index form x[(i - s) mod n], equals the "
             "numpy roll, composes additively; fftshift/ifftshift are mutual inverses and are numpy's shifts for odd and even "
-            "lengths; fft2/ifft2 (the interpreted, translator-regenerated call plan ifftshift -> (i)fftn(norm) -> fftshift with "
-            "its centered/normalized/complex_input guards) are mutual inverses for all 8 flag combinations on one axis and on "
-            "every duplicate-free axis tuple, preserve energy when normalised, and with Mathlib's ZMod.dft as the per-axis "
-            "transform the centred transform is the textbook shifted DFT sum_j x_j w^((k-c)(j-c)), c = n div 2. Tied to the code by "
-            "translated shift amounts / narrow offsets / cat order / call plan (bridge lemmas) and by differential "
-            "correspondence (exact on labelled tensors for the shifts; symbolic root-of-unity answers vs torch under 1e-5 for "
-            "fft2/ifft2 on basis tensors).",
-    "note": "Trusted: Lean kernel (+propext, Classical.choice, Quot.sound), the AST translator, Tensor.alongAxis (row-major "
-            "per-axis lifting, validated by correspondence), and torch.fft.fftn/ifftn being the per-axis DFT pair with the stated "
-            "normalisation (assumed in the theorems as the inverse-pair / isometry hypotheses; probed on every basis vector "
-            "class by the correspondence and against numpy by the oracle, not proved). Commutation of operators acting on "
-            "different axes is a hypothesis of the n-D theorem. Float32 rounding is outside the theorems (tolerances 1e-5/1e-4). "
-            "Parseval for the concrete DFT is not derived (energy is proved over an abstract isometry).",
-    "technique": "Lean 4 proof (list/index arithmetic, plan interpretation, Mathlib ZMod.dft) + AST translation bridge + "
-                 "differential correspondence + property oracle",
+            "lengths, on one axis and (lifted through the Tensor.alongAxis the driver runs) on every duplicate-free axis tuple "
+            "of a well-formed tensor; fft2/ifft2 (the interpreted, translator-regenerated call plan ifftshift -> (i)fftn(norm) -> "
+            "fftshift with its centered/normalized/complex_input guards) are mutual inverses for all 8 flag combinations on one "
+            "axis, over abstract per-axis operators, and on the tensor backend the driver runs; they preserve energy when "
+            "normalised; with Mathlib's ZMod.dft as the per-axis transform the pair is an inverse pair and an isometry without "
+            "further hypotheses and the centred transform is the textbook shifted DFT scale * sum_j x_j w^(-(k-c)(j-c)), c = n div 2. "
+            "Tied to the code by translated shift amounts / narrow offsets / cat order / call plan (bridge lemmas) and by "
+            "differential correspondence (exact on labelled tensors for the shifts; symbolic root-of-unity answers vs torch "
+            "under 1e-5 for fft2/ifft2 on basis tensors).",
+    "note": "Trusted: Lean kernel (+propext, Classical.choice, Quot.sound), the AST translator, and torch.fft.fftn/ifftn being the "
+            "per-axis DFT pair with the stated normalisation (a hypothesis of the abstract theorems — inverse pair, isometry, "
+            "commutation of its per-axis factors; proved for the Mathlib DFT on one axis; probed on every basis-vector class by "
+            "the correspondence and against numpy and the explicit DFT matrix by the oracle). Float32 rounding is outside the "
+            "theorems (tolerances 1e-5/1e-4). The n-D DFT formula is the per-axis composition of the proved 1-D formula; it is "
+            "not restated as a single n-D sum.",
+    "technique": "Lean 4 proof (list/index arithmetic, plan interpretation, alongAxis lifting, Mathlib ZMod.dft) + AST translation "
+                 "bridge + differential correspondence + property oracle",
 }
 TRUSTED = [
     "Lean 4.33 kernel; axioms ⊆ {propext, Classical.choice, Quot.sound}",
@@ -52,7 +54,7 @@ RULE = ("shift cases: arange-labelled tensors of rank 1-6, lengths from {1,2,3,4
         "distinct = distinct protocol line / oracle case key")
 PENDING_FINDINGS: list[str] = []
 # n-D corollaries (lifting of the 1-D theorems through Tensor.alongAxis) are obligations of this check too
-EXTRA_LEAN_MODULES = ["DirectVerif.Lemmas.TensorLiftC01"]
+EXTRA_LEAN_MODULES = ["DirectVerif.Lemmas.TensorLiftC01", "DirectVerif.Lemmas.C01Dft"]
 
 LENS = [1, 2, 3, 4, 5, 6, 7, 9, 12]
 
